@@ -1,7 +1,7 @@
 from tools.driver import Unit
 UNITS = []
 UNITS += [
-  Unit("vf_ov_clear", ["C13", "C03", "C12"], "lib/vorbisfile.c", enforce="ov_clear", loops="vf_access.loops", harness="h_vf_ov_clear.c", entry="h_vf_ov_clear",
+  Unit("vf_ov_clear", ["C13", "C03", "C12"], "lib/vorbisfile.c", enforce="ov_clear", loops="_wip_vf_clear.loops", harness="h_vf_ov_clear.c", entry="h_vf_ov_clear",
        replace=["vorbis_block_clear", "vorbis_dsp_clear", "ogg_stream_clear", "ogg_sync_clear", "vorbis_info_clear", "vorbis_comment_clear", "verif_close_cb"],
        leak=True, reach=0, timeout=600,
        assumed=["<= 4 links in the table (the link loop itself is closed by a loop contract)", "sub-object clear functions (block, dsp state, ogg stream/sync, info, comments) by contract: each assigns only its own object"],
